@@ -302,6 +302,28 @@ func driveC07(c *driverCtx) error {
 			ev := readerOutcome(r, sentinel)
 			ev["op"], ev["failAt"] = "rd_cb", i
 			c.rec.Emit(key, ev)
+			// ... also when what follows the record's block is not what it should be (the block's sync marker damaged,
+			// or the file ending right after the block's payload): the callback's error is the first thing that
+			// happens, and it is what comes back
+			n, blk := int64(0), -1
+			for k, b := range f.Blocks {
+				if n += b.Count; int64(i) < n {
+					blk = k
+					break
+				}
+			}
+			if blk >= 0 {
+				damaged := append([]byte{}, rf.bytes...)
+				if i%2 == 0 {
+					damaged[f.Blocks[blk].SyncAt+i%16] ^= 0x10
+				} else {
+					damaged = damaged[:f.Blocks[blk].SyncAt+i%16]
+				}
+				r := readBack(rf.targetType(), damaged, readerKinds[(i+3)%len(readerKinds)], i%2 == 1, i, sentinel)
+				ev := readerOutcome(r, sentinel)
+				ev["op"], ev["failAt"] = "rd_cb_dmg", i
+				c.rec.Emit(key, ev)
+			}
 		}
 		// bit flips: sync markers, checksums, compressed payloads
 		var sites []int
